@@ -209,6 +209,53 @@ def run(ctx):
                 w = np.array([[b2f(x) for x in l.split()] for l in mo])
                 if not np.allclose(s, w, atol=1e-8):
                     ctx.alarm('correspondence', 'sphere_sample differs from the model (%s)' % rec)
+    # ---------------- a session of lattice samplers with related counts (a sampler with counts [a, b] after another one with [a +- 1, b +- 1] and
+    # with the same counts): each result is exactly its documented lattice, whatever ran before.  Untilted, centre 0: the oracle is closed form.
+    seq = []
+    for a in range(2, 5):
+        for b in range(2, 5):
+            for da, db in ((0, 0), (1, 1), (-1, -1), (1, 0)):
+                seq.append(('circular', [a, b]))
+                seq.append(('grid', [max(2, a + da), max(2, b + db)]))
+                seq.append(('box', [max(1, a + da - 1), max(1, b + db - 1), 2]))
+                seq.append(('grid', [a, b]))
+                seq.append(('circular', [max(1, a + da), max(1, b + db)]))
+    for kind, no in seq:
+        ctx.count('session/' + kind)
+        ctx.case(('session', kind, tuple(no), len(ctx.counts) if hasattr(ctx, 'counts') else 0), True)
+        rec = {'sampler': kind, 'no': no, 'session': True}
+        if kind == 'grid':
+            size = [3.0, 5.0]
+            gs = np.asarray(NT.grid_sample(no=no, size=size, center=[0., 0., 0.], angles=[0., 0., 0.]), dtype=np.float64)
+            want = np.array([[i * size[0] / (no[0] - 1) - size[0] / 2, j * size[1] / (no[1] - 1) - size[1] / 2, 0.0] for i in range(no[0]) for j in range(no[1])])
+            gt, *_ = LT.grid_sample(no=no, size=size, center=[0., 0., 0.], angles=[0., 0., 0.])
+            if gs.shape != want.shape or not np.allclose(gs, want, atol=1e-9):
+                ctx.violation('grid_sample(no=%s, size=%s) in the middle of a session of sampler calls is not the regular %dx%d lattice over the '
+                              'rectangle: first points %s, expected %s' % (no, size, no[0], no[1], np.round(gs[:3], 6).tolist(), np.round(want[:3], 6).tolist()),
+                              rec, {'fn': 'grid_sample', 'api': 'numpy', 'what': 'session'})
+                break
+            if tuple(gt.shape) != want.shape or not np.allclose(gt.numpy(), want, atol=1e-5):
+                ctx.violation('torch grid_sample(no=%s) in the middle of a session is not the regular lattice' % (no,), rec,
+                              {'fn': 'grid_sample', 'api': 'torch', 'what': 'session'})
+                break
+        elif kind == 'circular':
+            rad = 2.5
+            cs_ = np.asarray(NT.circular_sample(no=no, radius=rad, center=[0., 0., 0.], angles=[0., 0., 0.]), dtype=np.float64)
+            want = np.array([[(r / no[1]) * rad * math.cos(a / no[0] * 2 * math.pi), (r / no[1]) * rad * math.sin(a / no[0] * 2 * math.pi), 0.0]
+                             for a in range(1, no[0] + 1) for r in range(1, no[1] + 1)])
+            if cs_.shape != want.shape or not np.allclose(cs_, want, atol=1e-9):
+                ctx.violation('circular_sample(no=%s, radius=%g) in the middle of a session of sampler calls is not its polar lattice: first points %s, '
+                              'expected %s' % (no, rad, np.round(cs_[:3], 6).tolist(), np.round(want[:3], 6).tolist()), rec,
+                              {'fn': 'circular_sample', 'what': 'session'})
+                break
+        else:
+            size3 = [2.0, 3.0, 4.0]
+            bs_ = np.asarray(NT.box_volume_sample(no=no, size=size3, center=[0., 0., 0.], angles=[0., 0., 0.]), dtype=np.float64)
+            if bs_.shape != (no[0] * no[1] * no[2], 3) or len({tuple(np.round(p_, 9)) for p_ in bs_}) != no[0] * no[1] * no[2] or \
+                    any(np.max(np.abs(bs_[:, k])) > size3[k] / 2 + 1e-9 for k in range(3)):
+                ctx.violation('box_volume_sample(no=%s) in the middle of a session is not %d distinct points inside the box' % (no, no[0] * no[1] * no[2]),
+                              rec, {'fn': 'box_volume_sample', 'what': 'session'})
+                break
     from .gensamplers import check_generated_samplers
     check_generated_samplers(ctx)          # the definitions regenerated from the source (Generated/Samplers.lean) vs the real functions
     more_generators(ctx)
